@@ -164,6 +164,8 @@ class Emitter:
             return not self.truth(e.operand)
         if isinstance(e, ast.Constant):
             return bool(e.value)
+        if isinstance(e, ast.IfExp):
+            return self.truth(e.body) if self.truth(e.test) else self.truth(e.orelse)
         if isinstance(e, ast.Compare) and len(e.ops) == 1 and isinstance(e.ops[0], (ast.Is, ast.IsNot)) \
                 and isinstance(e.left, ast.Constant) and isinstance(e.comparators[0], ast.Constant):
             same = e.left.value is e.comparators[0].value
